@@ -1919,5 +1919,6 @@ func genC10(c *Ctx) {
 	// phase 3: spec-only cases for the filters outside the model (stand-alone aligners, delta, rate)
 	genC10Stream(e, c)
 	genC10Cal(e, c)
+	genC10Struct(c)
 	e.summary("C10")
 }
